@@ -41,7 +41,11 @@
 (* "pinned_near_parallel" are deterministic probes inside that gap which   *)
 (* are judged WITHOUT this exemption.                                      *)
 (* Events are independent: TLC picks the event index in Init and judges it *)
-(* in one step; `verdict` is the list of violated laws.                    *)
+(* in one step; `verdict` is the list of violated laws (invariant ok; run  *)
+(* with -continue to collect every rejection).  A TRACE-REJECTED line      *)
+(* names the violated laws and the domain flags the spec computed; a       *)
+(* DOMAIN line per pair event says whether the guarded laws applied to it  *)
+(* (vacuity guard).                                                        *)
 (***************************************************************************)
 EXTENDS Integers, Sequences, TLC, Json, IOUtils
 
